@@ -19,6 +19,7 @@ Definition err_class (e : wf_err) : string :=
   | ENoMode => "no-mode" | EUnknownMode => "unknown-mode" | EModeMismatch => "mode-mismatch"
   | ERefModeMismatch => "ref-mode-mismatch" | EIllegalShift => "illegal-shift"
   | ENotContractive => "not-contractive"
+  | EDefModeMismatch => "def-mode-mismatch"
   end.
 
 Definition dump_tdef (d : tdef) : string :=
